@@ -578,6 +578,8 @@ class EvalFunc:
                 trig_ctx_name,
                 ", ".join(sorted(trig_decorators_reqd)),
             )
+            # the function is not registered with its context: release any service it registered
+            self.trigger_stop()
             return
 
         if len(trig_decs) == 0:
@@ -1218,6 +1220,8 @@ class AstEval:
                     await func.trigger_init(self.global_ctx, name)
                 except Exception as e:
                     self.log_exception(e)
+                    # release services registered before the decorators failed
+                    func.trigger_stop()
                 func_var = EvalFuncVar(func)
                 func_var.set_ast_ctx(self)
 
